@@ -58,7 +58,9 @@ def install(eng):
         x, y = a
         p = b_or(x.poison(), y.poison(), y.v == 0)
         k = fresh('remk', 'int'); r = fresh('reme'); mm = z3.If(y.v >= 0, y.v, -y.v)
-        eng.side.append(z3.Implies(z3.Not(zb(p)), z3.And(x.v == z3.ToReal(k) * mm + r, r >= 0, r < mm)))
+        c = z3.Implies(z3.Not(zb(p)), z3.And(x.v == z3.ToReal(k) * mm + r, r >= 0, r < mm))
+        eng.side.append(c)
+        if eng.pi_rational: eng.side_lin.append(z3.Implies(z3.Not(zb(p)), z3.And(r >= 0, r < mm)))
         return one(st, F(r, p))
     M(r'std::f64::<impl f64>::rem_euclid$', rem_euclid)
     def powi(e, st, fr, f, a, m):
@@ -180,10 +182,26 @@ def install(eng):
     def dense(st, v, what):
         if isinstance(v, VecV) and not v.is_dense(): raise Inconclusive(f'{what} of guarded Vec')
         return v
+    def densify(st, ref):
+        """split the state on the guards of a guarded Vec so that each resulting state holds a dense Vec (at most 2^4 states)"""
+        v = D(st, ref)
+        if not isinstance(v, VecV) or v.is_dense(): return [st]
+        idx = [i for i, (g, _) in enumerate(v.ents) if g is not True]
+        if len(idx) > 4: raise Inconclusive('too many guarded Vec entries to split')
+        outs = []
+        import itertools as _it
+        for bits in _it.product((True, False), repeat=len(idx)):
+            s2 = st.clone(); keep = dict(zip(idx, bits))
+            for i, b in keep.items(): s2.assume(v.ents[i][0] if b else b_not(v.ents[i][0]))
+            if not eng.feasible(s2.pc): continue
+            eng.write_ref(s2, ref, VecV([(True, x) for i, (g, x) in enumerate(v.ents) if keep.get(i, True)]))
+            outs.append(s2)
+        return outs
+    eng.densify = densify
     def vlen(e, st, fr, f, a, m):
         v = D(st, a[0])
         if isinstance(v, VecV) and not v.is_dense():
-            return one(st, z3.Sum([z3.If(zb(g), 1, 0) for g, _ in v.ents]))
+            return [(s2, len(D(s2, a[0]).items)) for s2 in densify(st, a[0])]
         return one(st, len(v.items))
     M(r'^std::vec::Vec::<.*>::len$|core::slice::<impl \[.*\]>::len$', vlen)
     def vempty(e, st, fr, f, a, m):
@@ -297,6 +315,24 @@ def install(eng):
         for _, x in _need_dense(it).ents: st, _r = eng.call1(st, fr, clo, [x])
         return one(st, UNIT)
     M(r'^<.* as std::iter::Iterator>::for_each$', it_for_each)
+    def sort_by(e, st, fr, f, a, m):
+        """slice::sort_by as a stable insertion network driven by the REAL comparator closure (std's algorithm is trusted to sort
+        according to the comparator; what is executed symbolically is the comparator)"""
+        ref, clo = a
+        outs = []
+        for s0 in densify(st, ref):
+            items = list(D(s0, ref).items); n = len(items); cur = s0
+            for i in range(1, n):
+                for j in range(i, 0, -1):
+                    ra = eng.tmp_ref(cur, fr, items[j - 1]); rb = eng.tmp_ref(cur, fr, items[j])
+                    cur, o = eng.call1(cur, fr, clo, [ra, rb])
+                    gt = _deq(o.disc, 1)
+                    if gt is True or (isz(gt) and z3.is_true(gt)): items[j - 1], items[j] = items[j], items[j - 1]
+                    elif gt is False or (isz(gt) and z3.is_false(gt)): pass
+                    else: items[j - 1], items[j] = ite(gt, items[j], items[j - 1]), ite(gt, items[j - 1], items[j])
+            eng.write_ref(cur, ref, VecV.dense(items)); outs.append((cur, UNIT))
+        return outs
+    M(r'^std::slice::<impl \[.*\]>::sort_by$|core::slice::<impl \[.*\]>::sort_by$', sort_by)
     def arr_index(e, st, fr, f, a, m):
         r, i = a
         if isz(i):
